@@ -17,7 +17,8 @@ EXTENDS Integers, FiniteSets, Sequences, TLC
 CONSTANTS P,          \* participants
           Prog,       \* [P -> Seq(call)], call \in {"pin","unpin","defer","flush","react","advance","hdrop"}
           TaskProg,   \* [1..NT -> Seq(call)] : calls issued by deferred function k when it runs
-          NT, Cap, MaxEp, Expire, Trials, Fix, Mut
+          NT, Cap, MaxEp, Expire, Trials, Fix, Mut,
+          Loop        \* participants whose program starts over when it ends (surviving threads that keep going)
 
 Task == 1..NT
 VARIABLES gep,                       \* Global.epoch
@@ -63,7 +64,9 @@ CallPin(p) ==      \* Guard creation
 PinDone(p) ==      \* the guard exists: the critical section (instance) is active from here
   /\ pc[p] = "pin_done"
   /\ ug' = [ug EXCEPT ![p] = @ + 1]
-  /\ inst' = IF ug[p] = 0 THEN [inst EXCEPT ![p] = @ + 1] ELSE inst
+  \* (a looping participant keeps one instance number, otherwise the ghost counter is unbounded;
+  \*  configs with Loop # {} do not check C13)
+  /\ inst' = IF ug[p] = 0 /\ p \notin Loop THEN [inst EXCEPT ![p] = @ + 1] ELSE inst
   /\ Goto(p, "idle")
   /\ UNCHANGED <<gep, lep, lpin, gc, hc, coll, must, bag, queue, alive, ret, reg, ip, tctx, act, st, ran>>
 CallUnpin(p) ==    \* Guard drop: the user stops relying on the guard when the call starts
@@ -174,7 +177,7 @@ UnpinStore(p) ==
 \* Global::collect (185-208)
 ColPop(p) ==       \* try_pop_if(is_expired): pops the head only if it is >= Expire epochs old
   /\ pc[p] = "col_pop"
-  /\ IF reg[p].trials < Trials /\ queue # <<>> /\ (gep - Head(queue).ep >= Expire \/ "CollectUnexpired" \in Mut)
+  /\ IF reg[p].trials < Trials /\ queue # <<>> /\ "NeverCollect" \notin Mut /\ (gep - Head(queue).ep >= Expire \/ "CollectUnexpired" \in Mut)
        THEN /\ reg' = [reg EXCEPT ![p].cur = Head(queue).ts, ![p].trials = @ + 1]
             /\ queue' = Tail(queue) /\ Goto(p, "run")
        ELSE /\ UNCHANGED <<reg, queue>> /\ Goto(p, "uc_repin")
@@ -251,16 +254,25 @@ Fin3(p) ==
   /\ pc[p] = "fin3" /\ hc' = [hc EXCEPT ![p] = 0] /\ alive' = [alive EXCEPT ![p] = FALSE] /\ Return(p)
   /\ UNCHANGED <<gep, lep, lpin, gc, coll, must, bag, queue, reg, ip, tctx, ug, inst, act, st, ran>>
 
-Next == \E p \in P :
+Restart(p) ==
+  /\ p \in Loop /\ pc[p] = "idle" /\ ~InTask(p) /\ ip[p] > Len(Prog[p])
+  /\ ip' = [ip EXCEPT ![p] = 1]
+  /\ UNCHANGED <<gep, lep, lpin, gc, hc, coll, must, bag, queue, alive, pc, ret, reg, tctx, ug, inst, act, st, ran>>
+PStep(p) ==
+  \/ Restart(p)
   \/ CallPin(p) \/ PinDone(p) \/ CallUnpin(p) \/ CallDefer(p) \/ DeferSched(p) \/ DeferPut(p)
   \/ CallFlush(p) \/ FlushSched(p) \/ CallReact(p) \/ ReactPin(p) \/ ReactDone(p) \/ CallAdvance(p) \/ CallHDrop(p)
   \/ Pin0(p) \/ PinRead(p) \/ PinPublish(p) \/ PinValidate(p) \/ PinReset(p)
   \/ Unpin0(p) \/ UcLoop(p) \/ UnpinDec(p) \/ UnpinStore(p) \/ ColPop(p) \/ Run(p) \/ TaskEnd(p) \/ UcRepin(p)
   \/ Repin0(p) \/ Repin1(p) \/ Adv0(p) \/ AdvScan(p) \/ AdvStore(p) \/ AdvGiveUp(p) \/ Push0(p) \/ Push1(p)
   \/ Fin0(p) \/ Fin1(p) \/ Fin2(p) \/ Fin3(p)
-Spec == Init /\ [][Next]_vars
+Next == \E p \in P : PStep(p)
+\* explicit idling once every program has ended, so that liveness is judged on infinite behaviours
+Idle == (\A p \in P : pc[p] = "idle" /\ tctx[p] = <<>> /\ ip[p] > Len(Prog[p])) /\ UNCHANGED vars
+Spec == Init /\ [][Next \/ Idle]_vars
 \* a surviving participant keeps going (C15 liveness)
-FairSpec == Spec /\ \A p \in P : WF_vars(\E q \in {p} : Next)
+\* every participant that can take a step eventually does (no thread stalls for ever inside a call)
+FairSpec == Spec /\ \A p \in P : WF_vars(PStep(p))
 
 ---------------------------------------------------------------------------
 \* C13: a deferred function never runs while a critical section that was active at its deferral is active
@@ -276,9 +288,15 @@ Pending(k) == \E p \in P : (\E i \in 1..Len(reg[p].cur) : reg[p].cur[i] = k)
                            \/ (\E f \in 1..Len(tctx[p]) : \E i \in 1..Len(tctx[p][f].saved) : tctx[p][f].saved[i] = k)
 Conserved == \A k \in Task : st[k] = "bag" => (InBags(k) \/ InQueue(k) \/ Pending(k))
 Done == \A p \in P : pc[p] = "idle" /\ ~InTask(p) /\ ip[p] > Len(Prog[p])
-EventuallyRun == <>(\A k \in Task : st[k] # "new" => ran[k] = 1)
+\* Once a deferred function sits in the global queue it is eventually run by a surviving participant
+\* (the model bounds the clock at MaxEp, so the promise is made for bags that can expire within it);
+\* that it reaches the queue when its thread exits is LostBag.
+Sealed(k) == \E i \in 1..Len(queue) : (\E j \in 1..Len(queue[i].ts) : queue[i].ts[j] = k) /\ queue[i].ep + Expire <= MaxEp
+EventuallyRun == \A k \in Task : Sealed(k) ~> (ran[k] = 1)
 \* C16: the pinned bit follows the live guards (outside the calls that change it)
 C16 == \A p \in P : (pc[p] = "idle" /\ ~coll[p]) => (lpin[p] = (gc[p] > 0) /\ (ug[p] > 0 => gc[p] > 0))
 GuardsCounted == \A p \in P : pc[p] = "idle" /\ ~InTask(p) => gc[p] = ug[p]
+\* C15: a participant that has left the registry left nothing behind in its local bag
+LostBag == \A p \in P : ~alive[p] => bag[p] = <<>>
 TypeOK == \A p \in P : gc[p] >= 0 /\ hc[p] >= 0 /\ ug[p] >= 0
 =============================================================================
